@@ -299,6 +299,9 @@ def run_pipes(ctx, r, drv, hp):
     iobs = index(out + '\n' + tout, 'OBS')
     mo = index(mout, 'OUT')
     mden = index(mout, 'DEN')
+    skipped = 'SKIPPED PIPE' in out
+    if skipped:
+        r.notes.append('pipeline harness stopped early after 12 abnormal terminations (all reported)')
     runres = {}
     for (cid, mode, sx) in cases:
         if mode == 'run' and cid in iout:
@@ -309,7 +312,8 @@ def run_pipes(ctx, r, drv, hp):
         rep = {'harness': 'c03_pipe', 'case': line}
         r.evaluations += 1
         if cid not in iout or cid not in iobs:
-            r.hits.append(Hit('tie', 'C03:pipe_harness', 'no output for case %s' % line, rep))
+            if not skipped:
+                r.hits.append(Hit('tie', 'C03:pipe_harness', 'no output for case %s' % line, rep))
             continue
         res = iout[cid][2:]
         obs = dict(kv.split('=') for kv in iobs[cid].split(' '))
